@@ -2,6 +2,7 @@ package streams
 
 import (
 	"context"
+	"encoding/json"
 	"fmt"
 	"math/rand"
 	"sort"
@@ -554,4 +555,66 @@ func normaliseCleanupCond(st *canon.ERSStatus, wall time.Time) {
 			st.Conds[i].LastUpdate = w
 		}
 	}
+}
+
+// recordingClientU also records Update / Status().Update calls (kind/name).
+func recordingClientU(objs []client.Object, calls *Calls) client.Client {
+	base := fake.NewClientBuilder().WithScheme(theScheme).WithObjects(objs...).
+		WithStatusSubresource(&edsv1.ExtendedDaemonSet{}, &edsv1.ExtendedDaemonSetReplicaSet{}, &edsv1.ExtendedDaemonsetSetting{}).Build()
+	return interceptor.NewClient(base, interceptor.Funcs{
+		Delete: func(ctx context.Context, c client.WithWatch, obj client.Object, opts ...client.DeleteOption) error {
+			calls.mu.Lock()
+			calls.Deleted = append(calls.Deleted, kindOf(obj)+"/"+obj.GetName())
+			calls.mu.Unlock()
+			return c.Delete(ctx, obj, opts...)
+		},
+		Patch: func(ctx context.Context, c client.WithWatch, obj client.Object, patch client.Patch, opts ...client.PatchOption) error {
+			calls.mu.Lock()
+			calls.Patched = append(calls.Patched, kindOf(obj)+"/"+obj.GetName())
+			calls.mu.Unlock()
+			return c.Patch(ctx, obj, patch, opts...)
+		},
+		Create: func(ctx context.Context, c client.WithWatch, obj client.Object, opts ...client.CreateOption) error {
+			calls.mu.Lock()
+			calls.Created = append(calls.Created, kindOf(obj)+"/"+obj.GetGenerateName()+obj.GetName())
+			calls.mu.Unlock()
+			return c.Create(ctx, obj, opts...)
+		},
+		Update: func(ctx context.Context, c client.WithWatch, obj client.Object, opts ...client.UpdateOption) error {
+			calls.mu.Lock()
+			calls.Updated = append(calls.Updated, kindOf(obj)+"/"+obj.GetName())
+			calls.mu.Unlock()
+			return c.Update(ctx, obj, opts...)
+		},
+		SubResourceUpdate: func(ctx context.Context, c client.Client, subResourceName string, obj client.Object, opts ...client.SubResourceUpdateOption) error {
+			calls.mu.Lock()
+			calls.Updated = append(calls.Updated, subResourceName+":"+kindOf(obj)+"/"+obj.GetName())
+			calls.mu.Unlock()
+			return c.SubResource(subResourceName).Update(ctx, obj, opts...)
+		},
+	})
+}
+
+func kindOf(obj client.Object) string {
+	switch obj.(type) {
+	case *corev1.Pod:
+		return "Pod"
+	case *edsv1.ExtendedDaemonSet:
+		return "EDS"
+	case *edsv1.ExtendedDaemonSetReplicaSet:
+		return "ERS"
+	case *edsv1.ExtendedDaemonsetSetting:
+		return "Setting"
+	case *corev1.PodTemplate:
+		return "PodTemplate"
+	case *corev1.Node:
+		return "Node"
+	}
+	return fmt.Sprintf("%T", obj)
+}
+
+func canonEq(a, b interface{}) bool {
+	x, _ := json.Marshal(a)
+	y, _ := json.Marshal(b)
+	return string(x) == string(y)
 }
